@@ -364,6 +364,18 @@ def run_sign(case, col=None):
                                   "library-signed (%s) message rejected with keyring form %s: %s" % (api, form, label)))
                 elif obj.mac != t.mac and api == "message":
                     probs.append(("validate/mac-attribute", "parsed Message.mac differs from the wire MAC"))
+                elif form == FORMS[0]:
+                    # the next stand-alone message of an exchange, validated with the context the library
+                    # handed back for this one threaded through (what inbound_xfr does for every message,
+                    # also over UDP where multi is False): a genuine message still verifies
+                    v2, label2, _o2 = validate(w, keyring_of(form, key), rm, t0, multi=False, ctx=obj.tsig_ctx)
+                    if col:
+                        col.count("evaluations")
+                        col.outcome("genuine-with-returned-context:" + label2)
+                    if v2 != "ok":
+                        probs.append(("validate/genuine-rejected-with-returned-context/%s/%s" % (role, label2),
+                                      "a stand-alone genuine message is rejected when the tsig_ctx returned for the "
+                                      "previous stand-alone message is passed along (multi=False): %s" % label2))
             elif v != "rej":
                 probs.append(("validate/peer-error-accepted",
                               "message reporting TSIG error %d was accepted (%s)" % (err, label)))
